@@ -221,6 +221,7 @@ pub fn property(_tier: Tier) -> Property {
                 check: Box::new(check_typed),
             }),
             crate::props::c13_sim::part(),
+            crate::props::c13_sim::dead_part(),
             Box::new(RandomPart {
                 name: "list_replies_interrupted",
                 rule: "protocol layer: the reply to a command list of 2-9 commands, most of whose replies are empty (a frame that is nothing but list_OK) or one short field, optionally failing part-way; received with a read boundary after every line / one byte at a time / in 3-byte pieces by a blocking receive that is interrupted by a transient WouldBlock before every read and called again, or by an async receive whose future is dropped whenever it is pending; frame i must be the reply to command i (C03's round-trip judge). non-trivial = at least two leading empty frames",
